@@ -584,7 +584,27 @@ func (p *Program) verifyScenario(sc *Scenario) (u *Unit) {
 	for _, prm := range sc.Params {
 		tname := strings.TrimPrefix(prm.Type, "*")
 		var t types.Type
-		if obj := types.Universe.Lookup(tname); obj != nil {
+		if lb := strings.Index(tname, "["); lb > 0 && strings.HasSuffix(tname, "]") {
+			// an instance of a generic type of this package: Name[arg] with one type argument
+			if tn := x.lookupTypeName(fr, tname[:lb]); tn != nil {
+				argName := tname[lb+1 : len(tname)-1]
+				var at types.Type
+				if o := types.Universe.Lookup(argName); o != nil {
+					at = o.Type()
+				} else if i := strings.Index(argName, "."); i >= 0 {
+					if pk := p.packageByShortName(argName[:i]); pk != nil {
+						if o := pk.Scope().Lookup(argName[i+1:]); o != nil {
+							at = o.Type()
+						}
+					}
+				}
+				if at != nil {
+					if inst, err := types.Instantiate(nil, tn.Type(), []types.Type{at}, false); err == nil {
+						t = inst
+					}
+				}
+			}
+		} else if obj := types.Universe.Lookup(tname); obj != nil {
 			t = obj.Type()
 		} else if i := strings.Index(tname, "."); i >= 0 {
 			if pk := p.packageByShortName(tname[:i]); pk != nil {
